@@ -1744,8 +1744,10 @@ class FuncFindLast(ValueFunc):
         if obj.isString():
             s = obj.value
             part = args.getString("part").value
-            start = args.getInt("start", len(s) - 1).value
-            return ValueInt(obj.value.rfind(part, 0, start))
+            start = args.getInt("start", len(s)).value
+            if start < 0:
+                return ValueInt(-1)
+            return ValueInt(s.rfind(part, 0, start + len(part)))
         elif obj.isList():
             env = environment
             if key:
@@ -1753,6 +1755,8 @@ class FuncFindLast(ValueFunc):
             item = args.get("part")
             lst = obj.value
             start = args.getInt("start", len(lst) - 1).value
+            if start >= len(lst):
+                start = len(lst) - 1
             for idx in range(start, -1, -1):
                 elem = lst[idx]
                 if key:
